@@ -1206,6 +1206,133 @@ class Inliner:
         self.log.append(f"{f.qualname}: `return {L} + [..]` read as append-and-return at line {getattr(ret, 'lineno', '?')}")
         return True
 
+    def inline_raise_temps(self, f: FunctionInfo) -> bool:
+        """`t = <expression>; raise E(f".. {t} ..")` where t is read only by that raise statement  ->  the raise with the expression in
+        place (the block ends in the raise either way; the temporaries only prepare its message)"""
+        fn = f.node
+        changed = False
+        loads: Dict[str, int] = {}
+        stores: Dict[str, int] = {}
+        for n in _own_nodes(fn):
+            if isinstance(n, ast.Name):
+                d = loads if isinstance(n.ctx, ast.Load) else stores
+                d[n.id] = d.get(n.id, 0) + 1
+
+        def walk(stmts: List[ast.stmt]) -> None:
+            nonlocal changed
+            while len(stmts) >= 2 and isinstance(stmts[-1], ast.Raise) and isinstance(stmts[-2], ast.Assign) and len(stmts[-2].targets) == 1 and isinstance(stmts[-2].targets[0], ast.Name):
+                t = stmts[-2].targets[0].id
+                in_raise = sum(1 for x in ast.walk(stmts[-1]) if isinstance(x, ast.Name) and x.id == t and isinstance(x.ctx, ast.Load))
+                if t in f.params or stores.get(t, 0) != 1 or in_raise == 0 or loads.get(t, 0) != in_raise or any(isinstance(x, (ast.Await, ast.Yield, ast.YieldFrom, ast.NamedExpr)) for x in ast.walk(stmts[-2].value)):
+                    break
+                stmts[-1] = _Rename({t: stmts[-2].value}).visit(stmts[-1])
+                ast.fix_missing_locations(stmts[-1])
+                del stmts[-2]
+                changed = True
+                self.log.append(f"{f.qualname}: temporary `{t}` of a raise statement written in place at line {getattr(stmts[-1], 'lineno', '?')}")
+            for st in stmts:
+                for fld in ("body", "orelse", "finalbody"):
+                    sub = getattr(st, fld, None)
+                    if isinstance(sub, list) and sub and isinstance(sub[0], ast.stmt) and not isinstance(st, (ast.FunctionDef, ast.AsyncFunctionDef, ast.ClassDef)):
+                        walk(sub)
+                for h in getattr(st, "handlers", []) or []:
+                    walk(h.body)
+
+        walk(fn.body)
+        return changed
+
+    def index_loops_to_zip(self, f: FunctionInfo) -> bool:
+        """`for i in range(len(A)): .. A[i] .. B[i] ..` where i is used only as the index of the local sequences A and B, and B is
+        bound once to something exactly as long as A (`rng.permutation(A)`, `sorted(A)`, `list(A)`, `numpy.array(A)`)
+        ->  `for a, b in zip(A, B): .. a .. b ..`"""
+        fn = f.node
+        SAME_LEN = {"permutation", "sorted", "list", "tuple", "array", "asarray", "copy"}
+        stores: Dict[str, List[ast.AST]] = {}
+        parents: Dict[int, ast.AST] = {}
+        for p_ in ast.walk(fn):
+            for ch in ast.iter_child_nodes(p_):
+                parents[id(ch)] = p_
+        for n in _own_nodes(fn):
+            if isinstance(n, ast.Name) and isinstance(n.ctx, ast.Store):
+                stores.setdefault(n.id, []).append(n)
+        changed = False
+
+        def same_length(b: str, a: str, loop: ast.For) -> bool:
+            if b == a:
+                return True
+            sts = stores.get(b, [])
+            inside = [s_ for s_ in sts if any(s_ is x for x in ast.walk(loop))]
+            if inside:
+                return False
+            # the binding that reaches the loop: the last one before it in the same block, or the only one
+            cands = [parents.get(id(s_)) for s_ in sts]
+            cands = [c for c in cands if isinstance(c, ast.Assign) and len(c.targets) == 1 and isinstance(c.targets[0], ast.Name)]
+            if len(cands) != len(sts) or not cands:
+                return False
+            blk = parents.get(id(loop))
+            body_lists = [getattr(blk, fld) for fld in ("body", "orelse", "finalbody") if isinstance(getattr(blk, fld, None), list)]
+            for lst in body_lists:
+                if loop in lst:
+                    before = [c for c in cands if c in lst and lst.index(c) < lst.index(loop)]
+                    if not before:
+                        return False
+                    v = before[-1].value
+                    if isinstance(v, ast.Call) and (v.func.attr if isinstance(v.func, ast.Attribute) else getattr(v.func, "id", None)) in SAME_LEN and len(v.args) == 1 \
+                            and isinstance(v.args[0], ast.Name) and v.args[0].id == a:
+                        # nothing rebinds A between that statement and the loop
+                        i0, i1 = lst.index(before[-1]), lst.index(loop)
+                        return not any(isinstance(x, ast.Name) and isinstance(x.ctx, ast.Store) and x.id in (a, b) for st_ in lst[i0 + 1:i1] for x in ast.walk(st_))
+            return False
+
+        def walk(stmts: List[ast.stmt]) -> None:
+            nonlocal changed
+            for i, st in enumerate(stmts):
+                if isinstance(st, ast.For) and not st.orelse and isinstance(st.target, ast.Name) and isinstance(st.iter, ast.Call) and isinstance(st.iter.func, ast.Name) and st.iter.func.id == "range" \
+                        and len(st.iter.args) == 1 and isinstance(st.iter.args[0], ast.Call) and isinstance(st.iter.args[0].func, ast.Name) and st.iter.args[0].func.id == "len" \
+                        and len(st.iter.args[0].args) == 1 and isinstance(st.iter.args[0].args[0], ast.Name):
+                    iv, a = st.target.id, st.iter.args[0].args[0].id
+                    uses = [n for b_ in st.body for n in ast.walk(b_) if isinstance(n, ast.Name) and n.id == iv]
+                    seqs: List[str] = []
+                    ok = bool(uses) and a not in f.params or bool(uses)
+                    for u in uses:
+                        par = parents.get(id(u))
+                        if isinstance(u.ctx, ast.Load) and isinstance(par, ast.Subscript) and par.slice is u and isinstance(par.ctx, ast.Load) and isinstance(par.value, ast.Name):
+                            if par.value.id not in seqs:
+                                seqs.append(par.value.id)
+                        else:
+                            ok = False
+                    after = [n for n in _own_nodes(fn) if isinstance(n, ast.Name) and n.id == iv and isinstance(n.ctx, ast.Load) and not any(n is x for x in ast.walk(st))]
+                    stored_in_body = {x.id for b_ in st.body for x in ast.walk(b_) if isinstance(x, ast.Name) and isinstance(x.ctx, ast.Store)}
+                    if ok and seqs and a in seqs and not after and not (set(seqs) & stored_in_body) and all(same_length(b, a, st) for b in seqs) and len(seqs) <= 4:
+                        seqs = [a] + [q for q in seqs if q != a]  # the sequence that bounds the loop first
+                        names = {q: f"{q}__z{getattr(st, 'lineno', 0)}" for q in seqs}
+
+                        class R(ast.NodeTransformer):
+                            def visit_Subscript(self, n):
+                                if isinstance(n.value, ast.Name) and n.value.id in names and isinstance(n.slice, ast.Name) and n.slice.id == iv and isinstance(n.ctx, ast.Load):
+                                    return ast.copy_location(ast.Name(id=names[n.value.id], ctx=ast.Load()), n)
+                                return self.generic_visit(n)
+
+                        st.body = [R().visit(b_) for b_ in st.body]
+                        if len(seqs) == 1:
+                            st.target = ast.Name(id=names[seqs[0]], ctx=ast.Store())
+                            st.iter = ast.Name(id=seqs[0], ctx=ast.Load())
+                        else:
+                            st.target = ast.Tuple(elts=[ast.Name(id=names[q], ctx=ast.Store()) for q in seqs], ctx=ast.Store())
+                            st.iter = ast.Call(func=ast.Name(id="zip", ctx=ast.Load()), args=[ast.Name(id=q, ctx=ast.Load()) for q in seqs], keywords=[])
+                        ast.fix_missing_locations(st)
+                        changed = True
+                        self.log.append(f"{f.qualname}: index loop over {seqs} written as a loop over their elements at line {getattr(st, 'lineno', '?')}")
+                for fld in ("body", "orelse", "finalbody"):
+                    sub = getattr(st, fld, None)
+                    if isinstance(sub, list) and sub and isinstance(sub[0], ast.stmt) and not isinstance(st, (ast.FunctionDef, ast.AsyncFunctionDef, ast.ClassDef)):
+                        walk(sub)
+                for h in getattr(st, "handlers", []) or []:
+                    walk(h.body)
+
+        walk(fn.body)
+        return changed
+
     def merge_conditional_comprehensions(self, f: FunctionInfo) -> bool:
         """`if C: x = [A for v in S]` / `else: x = [B for w in S]` (also the two-return form) with a loop-invariant, effect-free
         test C (a name or attribute)  ->  `x = [A if C else B for v in S]`"""
@@ -1467,19 +1594,27 @@ class Inliner:
                 return True
             if isinstance(e, ast.BinOp) and isinstance(e.op, ast.Add):
                 return is_str(e.left, depth + 1) or is_str(e.right, depth + 1)
-            if isinstance(e, ast.Name) and e.id not in f.params and len(stores.get(e.id, [])) == 1:
-                st_ = parent_of.get(id(stores[e.id][0]))
-                if isinstance(st_, ast.Assign) and len(st_.targets) == 1 and st_.targets[0] is stores[e.id][0]:
-                    return is_str(st_.value, depth + 1)
-                if isinstance(st_, (ast.For, ast.comprehension)) and st_.target is stores[e.id][0]:
-                    it = st_.iter
-                    if isinstance(it, ast.Name) and it.id not in f.params and len(stores.get(it.id, [])) == 1:
-                        d_ = parent_of.get(id(stores[it.id][0]))
-                        it = d_.value if isinstance(d_, ast.Assign) and len(d_.targets) == 1 and d_.targets[0] is stores[it.id][0] else it
-                    if isinstance(it, ast.ListComp):
-                        return is_str(it.elt, depth + 1)
-                    if isinstance(it, ast.Call) and isinstance(it.func, ast.Attribute) and it.func.attr in ("split", "splitlines", "rsplit"):
-                        return True
+            if isinstance(e, ast.Name) and e.id not in f.params and 1 <= len(stores.get(e.id, [])) <= 3:
+                # every binding of the name yields a str
+                def one(store_node) -> bool:
+                    st_ = parent_of.get(id(store_node))
+                    if isinstance(st_, ast.Assign) and len(st_.targets) == 1 and st_.targets[0] is store_node:
+                        v_ = st_.value
+                        if isinstance(v_, ast.Call) and isinstance(v_.func, ast.Attribute) and v_.func.attr in STR_METHODS:
+                            return True
+                        return is_str(v_, depth + 1)
+                    if isinstance(st_, (ast.For, ast.comprehension)) and st_.target is store_node:
+                        it = st_.iter
+                        if isinstance(it, ast.Name) and it.id not in f.params and len(stores.get(it.id, [])) == 1:
+                            d_ = parent_of.get(id(stores[it.id][0]))
+                            it = d_.value if isinstance(d_, ast.Assign) and len(d_.targets) == 1 and d_.targets[0] is stores[it.id][0] else it
+                        if isinstance(it, ast.ListComp):
+                            return is_str(it.elt, depth + 1)
+                        if isinstance(it, ast.Call) and isinstance(it.func, ast.Attribute) and it.func.attr in ("split", "splitlines", "rsplit"):
+                            return True
+                    return False
+
+                return all(one(sn) for sn in stores[e.id])
             return False
 
         def parts(e):
@@ -1509,6 +1644,85 @@ class Inliner:
                         log.append(f"{qn}: string concatenation read as an f-string at line {getattr(n, 'lineno', '?')}")
                         return ast.fix_missing_locations(ast.copy_location(js, n))
                 return n
+
+        R().visit(f.node)
+
+        # `x = f"..."` directly followed by `x += f"..."` (x a local): one assignment of the joined text
+        def merge(stmts: List[ast.stmt]) -> None:
+            nonlocal changed
+            i = 0
+            while i < len(stmts):
+                a_ = stmts[i]
+                b_ = stmts[i + 1] if i + 1 < len(stmts) else None
+                if isinstance(a_, ast.Assign) and len(a_.targets) == 1 and isinstance(a_.targets[0], ast.Name) and strish(a_.value) and isinstance(b_, ast.AugAssign) and isinstance(b_.op, ast.Add) \
+                        and isinstance(b_.target, ast.Name) and b_.target.id == a_.targets[0].id and strish(b_.value) and a_.targets[0].id not in f.params:
+                    a_.value = ast.fix_missing_locations(ast.copy_location(ast.JoinedStr(values=parts(a_.value) + parts(b_.value)), a_.value))
+                    del stmts[i + 1]
+                    changed = True
+                    log.append(f"{qn}: text built by `+=` read as one f-string at line {getattr(a_, 'lineno', '?')}")
+                    continue
+                for fld in ("body", "orelse", "finalbody"):
+                    sub = getattr(a_, fld, None)
+                    if isinstance(sub, list) and sub and isinstance(sub[0], ast.stmt) and not isinstance(a_, (ast.FunctionDef, ast.AsyncFunctionDef, ast.ClassDef)):
+                        merge(sub)
+                for h in getattr(a_, "handlers", []) or []:
+                    merge(h.body)
+                i += 1
+
+        merge(f.node.body)
+        return changed
+
+    def percents_to_fstrings(self, f: FunctionInfo) -> bool:
+        """`"W%d;" % int(x)` / `"%s;%s" % (a, b)` with a literal template using only %s, %d (of an `int(..)` value) and %%
+        ->  the equivalent f-string (`%s` is `{x!s}`)"""
+        import re as _re
+
+        changed = False
+        log, qn = self.log, f.qualname
+
+        class R(ast.NodeTransformer):
+            def visit_FunctionDef(self, n):
+                return n if n is not f.node else self.generic_visit(n)
+
+            visit_AsyncFunctionDef = visit_FunctionDef
+
+            def visit_Lambda(self, n):
+                return n
+
+            def visit_BinOp(self, n):
+                nonlocal changed
+                self.generic_visit(n)
+                if not (isinstance(n.op, ast.Mod) and isinstance(n.left, ast.Constant) and isinstance(n.left.value, str)):
+                    return n
+                if not isinstance(n.right, (ast.Tuple, ast.Call, ast.Constant, ast.JoinedStr)):
+                    return n  # a bare name could be a tuple or a mapping at run time: only tuples / calls / literals are read
+                args = list(n.right.elts) if isinstance(n.right, ast.Tuple) else [n.right]
+                toks = _re.split(r"(%%|%[sdi])", n.left.value)
+                if any("%" in t for t in toks[0::2]):
+                    return n
+                values, k = [], 0
+                for i, t in enumerate(toks):
+                    if i % 2 == 0:
+                        if t:
+                            values.append(ast.Constant(value=t))
+                    elif t == "%%":
+                        values.append(ast.Constant(value="%"))
+                    else:
+                        if k >= len(args):
+                            return n
+                        a = args[k]
+                        k += 1
+                        if t in ("%d", "%i"):
+                            if not (isinstance(a, ast.Call) and isinstance(a.func, ast.Name) and a.func.id == "int") and not (isinstance(a, ast.Constant) and isinstance(a.value, int)):
+                                return n
+                            values.append(ast.FormattedValue(value=a, conversion=-1, format_spec=None))
+                        else:
+                            values.append(ast.FormattedValue(value=a, conversion=115, format_spec=None))
+                if k != len(args):
+                    return n
+                changed = True
+                log.append(f"{qn}: %-formatting read as an f-string at line {getattr(n, 'lineno', '?')}")
+                return ast.fix_missing_locations(ast.copy_location(ast.JoinedStr(values=values), n))
 
         R().visit(f.node)
         return changed
@@ -1705,6 +1919,8 @@ class Inliner:
             self.numpy_idioms(f)
             self.concat_to_append(f)
             self.partial_attrs(f)
+            self.index_loops_to_zip(f)
+            self.inline_raise_temps(f)
         for _round in range(MAX_ROUNDS):
             changed = False
             for f in funcs:
@@ -1717,9 +1933,11 @@ class Inliner:
                 changed |= self.result_components(f)
                 changed |= self.merge_conditional_comprehensions(f)
                 changed |= self.formats_to_fstrings(f)
+                changed |= self.percents_to_fstrings(f)
                 changed |= self.concats_to_fstrings(f)
                 changed |= self.consts_to_literals(f)
                 changed |= self.properties_to_exprs(f)
+                changed |= self.inline_raise_temps(f)
             if not changed:
                 break
         # helpers that are no longer called anywhere are accounted for in their callers
